@@ -126,6 +126,7 @@ type Sim struct {
 	PreemptM    uint64
 	PreemptSeed uint64
 	preSites    []uint64
+	mwait       map[*sync.Mutex][]*G // goroutines waiting for a mutex (see MutexLock)
 	preempted   int
 
 	// SutPanics: panics that reached the top of an instrumented goroutine
@@ -443,6 +444,71 @@ func (s *Sim) EnablePreempt(m, seed uint64) {
 	s.preSites = make([]uint64, 1<<16)
 	s.PreemptSeed = seed
 	s.PreemptM = m
+}
+
+// MutexLock / MutexUnlock replace (*sync.Mutex).Lock / Unlock in dtail code.
+// An uncontended Lock is the real one. A contended Lock does not block in the
+// runtime (for testing/synctest a goroutine blocked on a sync.Mutex is not
+// durably blocked, so the bubble would never become quiescent while the holder
+// itself waits for something): the goroutine waits on its own wake-up channel
+// and becomes an ordinary candidate of the controller when the mutex is
+// released.
+func MutexLock(mu *sync.Mutex, site string) {
+	s := cur.Load()
+	if s == nil {
+		mu.Lock()
+		return
+	}
+	g := s.self()
+	if g == nil {
+		mu.Lock()
+		return
+	}
+	for !mu.TryLock() {
+		s.libKey(g, site)
+		s.mu.Lock()
+		if s.mwait == nil {
+			s.mwait = map[*sync.Mutex][]*G{}
+		}
+		s.mwait[mu] = append(s.mwait[mu], g)
+		g.site = site
+		s.mu.Unlock()
+		s.kickCtl()
+		<-g.wake
+		if g.node.Dead() && g.locks == 0 {
+			g.exiting = true
+			runtime.Goexit()
+		}
+	}
+}
+
+// MutexUnlock see MutexLock.
+func MutexUnlock(mu *sync.Mutex) {
+	mu.Unlock()
+	s := cur.Load()
+	if s == nil {
+		return
+	}
+	s.mu.Lock()
+	ws := s.mwait[mu]
+	delete(s.mwait, mu)
+	for _, w := range ws {
+		s.seq++
+		w.seq = s.seq
+		w.pstep = s.Steps
+		w.parked = true
+		s.parked = append(s.parked, w)
+	}
+	s.mu.Unlock()
+	// releasing a mutex is a scheduling point: who runs next - a waiter, somebody
+	// about to lock, or the goroutine that released it - is the controller's decision
+	if g := s.self(); g != nil && g.locks == 0 && g.Key != "" {
+		s.park(g, "sync/mutex-unlocked")
+		return
+	}
+	if len(ws) > 0 {
+		s.kickCtl()
+	}
 }
 
 // Yield is a scheduling point.
